@@ -5,7 +5,9 @@ package props
 import (
 	"bytes"
 	"fmt"
+	"io"
 	"testing"
+	"verif/harness/iox"
 
 	"github.com/Tnze/go-mc/level"
 	"pgregory.net/rapid"
@@ -56,6 +58,21 @@ func c11Check(c C11Case) *pbt.Violation {
 	if pv, stack := pbt.Try(func() { bs = level.NewBitStorage(b, n, initRaw) }); pv != nil {
 		return pbt.V("c11.ctor.rejects-valid", "raw longs in the 1.16+ packing are accepted by the constructor",
 			"NewBitStorage(%d, %d, %d longs) panicked: %v\n%s", b, n, len(initRaw), pv, stack)
+	}
+	// a second storage built from the same raw slice, and storages replaced by "rebuild": each is its
+	// own array, whatever happens to the others
+	type frozen struct {
+		bs    *level.BitStorage
+		model []uint64
+		what  string
+	}
+	var others []frozen
+	if c.Init != nil {
+		if pv, _ := pbt.Try(func() {
+			others = append(others, frozen{level.NewBitStorage(b, n, initRaw), append([]uint64{}, model...), "a second storage built from the same raw longs"})
+		}); pv != nil {
+			others = nil
+		}
 	}
 	mask := uint64(1)<<uint(b) - 1
 	inv := func(step string) *pbt.Violation {
@@ -141,6 +158,9 @@ func c11Check(c C11Case) *pbt.Violation {
 			if pv, _ := pbt.Try(func() { nb = level.NewBitStorage(b, n, bs.Raw()) }); pv != nil {
 				return pbt.V("c11.ctor.rejects-own-raw", "raw longs are accepted back by the constructor", "%s: NewBitStorage(bits %d, n %d, own Raw of %d longs) panicked: %v", step, b, n, len(bs.Raw()), pv)
 			}
+			if len(others) < 4 {
+				others = append(others, frozen{bs, append([]uint64{}, model...), fmt.Sprintf("the storage whose Raw() seeded another one at op #%d", si)})
+			}
 			bs = nb
 		case "wire":
 			var buf bytes.Buffer
@@ -155,13 +175,20 @@ func c11Check(c C11Case) *pbt.Violation {
 				return pbt.V("c11.wire.form", "wire form is VarInt count + big-endian longs", "%s: wrote % x (n=%d err=%v), want % x", step, clipB(buf.Bytes()), wn, err, clipB(w.B))
 			}
 			dst := level.NewBitStorage(op.B, n, nil)
-			rd := bytes.NewReader(append(buf.Bytes(), 0xA5))
+			rd := iox.NewSrc(append(buf.Bytes(), 0xA5))
+			var reader io.Reader = iox.ByteSrc{Src: rd}
+			if op.V%3 != 0 {
+				rd.Plan = []int{int(op.V%29) + 1} // short reads, as sockets and decompressors deliver
+				if op.V%2 == 0 {
+					reader = iox.Plain{R: rd}
+				}
+			}
 			var rn int64
-			if pv, stack := pbt.Try(func() { rn, err = dst.ReadFrom(rd) }); pv != nil {
+			if pv, stack := pbt.Try(func() { rn, err = dst.ReadFrom(reader) }); pv != nil {
 				return pbt.V(pbt.PanicKey("c11.readfrom", stack), "no panic", "%s: ReadFrom panicked: %v", step, pv)
 			}
-			if err != nil || rn != int64(len(w.B)) || rd.Len() != 1 {
-				return pbt.V("c11.wire.read", "wire round trip consumes what was written", "%s: ReadFrom n=%d err=%v left=%d, want n=%d left=1", step, rn, err, rd.Len(), len(w.B))
+			if err != nil || rn != int64(len(w.B)) || len(rd.Rest()) != 1 {
+				return pbt.V("c11.wire.read", "wire round trip consumes what was written", "%s: ReadFrom (read plan %v) n=%d err=%v left=%d, want n=%d left=1", step, rd.Plan, rn, err, len(rd.Rest()), len(w.B))
 			}
 			if err := dst.Fix(b); err != nil {
 				return pbt.V("c11.wire.fix", "wire round trip followed by Fix", "%s: Fix(%d) after reading %d longs for n=%d: %v", step, b, len(longs), n, err)
@@ -193,6 +220,14 @@ func c11Check(c C11Case) *pbt.Violation {
 		}
 		if v := inv(step); v != nil {
 			return v
+		}
+	}
+	for _, o := range others {
+		for i := 0; i < n; i++ {
+			if got := o.bs.Get(i); uint64(got) != o.model[i] {
+				return pbt.V("c11.shared", "no operation changes any other index (each storage is its own array)",
+					"%s: Get(%d)=%d, but it held %d and was not touched since (bits %d n %d)", o.what, i, got, o.model[i], b, n)
+			}
 		}
 	}
 	// full scan at the end
@@ -269,6 +304,7 @@ func genC11(t *rapid.T) C11Case {
 		op := C11Op{K: k, I: idx.Draw(t, "idx"), V: int64(val.Draw(t, "val"))}
 		if k == "wire" {
 			op.B = rapid.SampledFrom([]int{0, c.Bits, 1, 5, 32}).Draw(t, "dstbits")
+			op.V = int64(rapid.IntRange(0, 1000).Draw(t, "readplan")) // how the reader fragments the stream
 		}
 		if k == "badindex" || k == "badvalue" || k == "wronglen" {
 			op.I = rapid.IntRange(0, 1000).Draw(t, "sel")
